@@ -62,7 +62,11 @@ def candidates(rng, base, by_category=False):
                              cm.G('seq', [cm.E(node['n'], (node['mn'], node['mx'])), cm.E(other, (0, 1))]),
                              cm.G('seq', [cm.E(other, (0, 1)), cm.E(node['n'], (node['mn'], node['mx']))]),
                              cm.G('choice', [cm.E(node['n']), cm.E(other)], (node['mn'], node['mx'])),
-                             cm.G('seq', [cm.E(node['n']), cm.E(node['n'], (0, 1))])):
+                             cm.G('seq', [cm.E(node['n']), cm.E(node['n'], (0, 1))]),
+                             # a repeated group of several particles for the one element: the occurrences multiply
+                             cm.G('seq', [cm.E(node['n']), cm.E(node['n'])], (1, 3)),
+                             cm.G('seq', [cm.E(node['n']), cm.E(node['n']), cm.E(node['n'])], (1, 2)),
+                             cm.G('seq', [cm.E(node['n'], (1, 2)), cm.E(node['n'], (0, 1))], (0, 2))):
                     c = copy.deepcopy(base)
                     get(c, p[:-1])['ps'][p[-1]] = repl
                     out.append(c)                               # element renamed / replaced by a group around it
@@ -613,7 +617,7 @@ def gen(ctx):
         if q:
             # a stratified sample: every kind of change is represented for every base model
             groups = candidates(rng, base, by_category=True)
-            cands = [c for k in sorted(groups) for c in rng.sample(groups[k], min(len(groups[k]), 2))]
+            cands = [c for k in sorted(groups) for c in rng.sample(groups[k], min(len(groups[k]), 4 if k == 'element' else 2))]
         else:
             cands = candidates(rng, base)
         for d in cands:
@@ -629,6 +633,13 @@ def gen(ctx):
     for o1, ns, o2, o3 in (fam if not q else rng.sample(fam, 20)):
         base = cm.G('seq', [cm.G('choice', [cm.E('a', o1), cm.W(ns, o2)], (1, 1)), cm.E('d', (0, None))], (1, 1))
         models.append(make_model_case(base, cm.G('seq', [cm.E('a', o3)], (1, 1))))
+    # a repeated group of several particles restricting one element particle: the occurrences multiply
+    fam2 = [(bocc, k, gocc, kind) for bocc in [(0, 2), (0, 3), (1, 3), (1, 4), (2, 4), (0, None)] for k in (2, 3)
+            for gocc in [(1, 2), (1, 3), (0, 2), (2, 2), (1, None)] for kind in ('seq', 'choice')]
+    for bocc, k, gocc, kind in (fam2 if not q else rng.sample(fam2, 40)):
+        base = cm.G('seq', [cm.E('a', bocc), cm.E('b', (0, 1))], (1, 1))
+        inner = [cm.E('a') for _ in range(k)] if kind == 'seq' else [cm.E('a', (1, k)), cm.E('a', (k, k))][:1] + [cm.E('a', (0, 1))]
+        models.append(make_model_case(base, cm.G('seq', [cm.G('seq', inner, gocc), cm.E('b', (0, 1))], (1, 1))))
     for bu in USES:
         for bf in (None, '1'):
             for du in USES + ['absent']:
